@@ -72,6 +72,16 @@ def canon(dump):
     return re.sub(r"=floattext:([0-9a-f]*)", f2, dump)
 
 
+def gen_comment(rng):
+    """an inline comment: '#' then free text over an alphabet with quotes, '#', '=', brackets; often starting or ending with a quote"""
+    body = "".join(rng.choice(list('ab "#=[]\\\'.1') + ['"', '"', " "]) for _ in range(rng.below(12)))
+    r = rng.below(4)
+    if r == 0: body = body + '"'
+    if r == 1: body = '"' + body
+    if r == 2: body = 'set via "' + body + '"'
+    return rng.choice([" ", "  ", "\t"]) + "#" + rng.choice(["", " "]) + body
+
+
 def main():
     tier = os.environ.get("VERIF_TIER", "quick")
     rep = Report(PID)
@@ -119,7 +129,7 @@ def main():
         toks.append("".join(rng.choice(alpha) for _ in range(rng.below(9))))
     toks += ['"a"', '""', '"', '"a', 'a"', '""a""', "true", "false", "True", "1", "-1", "+1", "01", "1.5", "-.5", "5.", ".", "1e5", "1E-5", "1e", "e1",
              "9223372036854775807", "9223372036854775808", "-9223372036854775808", "-9223372036854775809", "inf", "-Inf", "nan", "NaN", "Infinity",
-             '"a # b" # c', "a # b", 'a "#" b', '"\\" # x', "a\\# b", ' x ', "3.0 # three"]
+             '"a # b" # c', '"a" # "b"', '"0.1.0" # set via "x"', '"a" #"', '"a"#""', "a # b", 'a "#" b', '"\\" # x', "a\\# b", ' x ', "3.0 # three"]
     toks = [t for t in toks if not (len(t) > 6 and t.lower().count("e") and any(ch.isdigit() for ch in t) and False)]
     g = go("toml-parseval", [hx(t) for t in toks]); m = model("toml-parseval", [hx(t) for t in toks])
     for t, a, b in zip(toks, g, m):
@@ -180,7 +190,7 @@ def main():
             if ln and not ln.startswith("[") and rng.below(2):
                 pad = rng.choice([" ", "\t", "   "])
                 k, _, v = ln.partition(" = ")
-                ln = pad + k + rng.choice([" = ", "=", "  =\t", " = "]) + v + rng.choice(["", " ", "  # trailing comment", "\t#c", " # a \"quoted\" remark"])
+                ln = pad + k + rng.choice([" = ", "=", "  =\t", " = "]) + v + rng.choice(["", " ", "  # trailing comment", "\t#c", " # a \"quoted\" remark", gen_comment(rng), gen_comment(rng)])
             elif ln.startswith("["):
                 ln = rng.choice(["", " "]) + ln + rng.choice(["", "  "])
             out.append(ln + ("\r" if rng.below(5) == 0 else ""))
